@@ -233,7 +233,11 @@ func (in *Interp) goroutineMain(g *goroutine, body func()) {
 				case pathAbort:
 					abort = &r
 				case targetPanic:
-					abort = &pathAbort{kind: "panic", msg: "unrecovered panic: " + toString(r.v)}
+					w := ""
+					if r.where != nil {
+						w = " in " + *r.where
+					}
+					abort = &pathAbort{kind: "panic", msg: "unrecovered panic: " + toString(r.v) + w}
 				default:
 					abort = &pathAbort{kind: "engine-error", msg: fmt.Sprintf("%v\n%s", r, trimStack(debug.Stack()))}
 				}
@@ -314,7 +318,7 @@ func (in *Interp) chanSend(g *goroutine, chv value, v value) {
 		in.block(g, "send on nil channel", func() bool { return false })
 	}
 	if ch.closed {
-		panic(targetPanic{"send on closed channel"})
+		panic(targetPanic{v: "send on closed channel"})
 	}
 	if len(ch.buf) < ch.cap {
 		ch.buf = append(ch.buf, v)
@@ -324,7 +328,7 @@ func (in *Interp) chanSend(g *goroutine, chv value, v value) {
 	ch.sendq = append(ch.sendq, offer)
 	in.block(g, fmt.Sprintf("chan send (chan %d)", ch.id), func() bool { return offer.taken || ch.closed })
 	if !offer.taken && ch.closed {
-		panic(targetPanic{"send on closed channel"})
+		panic(targetPanic{v: "send on closed channel"})
 	}
 }
 
@@ -372,10 +376,10 @@ func (in *Interp) chanRecv(g *goroutine, chv value, commaOk bool, elem types.Typ
 func (in *Interp) chanClose(g *goroutine, chv value) {
 	ch := chv.(*schan)
 	if ch == nil {
-		panic(targetPanic{"close of nil channel"})
+		panic(targetPanic{v: "close of nil channel"})
 	}
 	if ch.closed {
-		panic(targetPanic{"close of closed channel"})
+		panic(targetPanic{v: "close of closed channel"})
 	}
 	ch.closed = true
 }
@@ -463,7 +467,7 @@ func (in *Interp) selectStmt(g *goroutine, instr *ssa.Select, fr *frame) value {
 
 func (in *Interp) chanSendNoPreempt(g *goroutine, ch *schan, v value) {
 	if ch.closed {
-		panic(targetPanic{"send on closed channel"})
+		panic(targetPanic{v: "send on closed channel"})
 	}
 	if len(ch.buf) < ch.cap {
 		ch.buf = append(ch.buf, v)
@@ -512,7 +516,7 @@ func (in *Interp) unlock(g *goroutine, p *value, write bool) {
 	l := in.lockOf(p)
 	if write {
 		if l.writer == nil {
-			panic(targetPanic{"fatal error: sync: Unlock of unlocked RWMutex"})
+			panic(targetPanic{v: "fatal error: sync: Unlock of unlocked RWMutex"})
 		}
 		if l.writer != nil {
 			delete(l.writer.held, l)
@@ -520,7 +524,7 @@ func (in *Interp) unlock(g *goroutine, p *value, write bool) {
 		l.writer = nil
 	} else {
 		if len(l.readers) == 0 {
-			panic(targetPanic{"fatal error: sync: RUnlock of unlocked RWMutex"})
+			panic(targetPanic{v: "fatal error: sync: RUnlock of unlocked RWMutex"})
 		}
 		h := g
 		if l.readers[h] == 0 {
